@@ -67,7 +67,8 @@ def cases(tier, seed):
             for a in c["ufo"]["glyphs"][n]["anchors"]:
                 if a["n"].startswith("_") and len(a["n"]) > 1 and not a["n"][1:].isdigit():
                     by_key.setdefault(a["n"][1:], []).append(n)
-        keys = sorted(k_ for k_, ms in by_key.items() if len(ms) >= 2 and k_.isalpha())
+        base_keys = {a["n"] for n in c["ufo"]["glyphNames"] for a in c["ufo"]["glyphs"][n]["anchors"] if not a["n"].startswith("_")}
+        keys = sorted(k_ for k_, ms in by_key.items() if len(ms) >= 2 and k_.isalpha() and k_ in base_keys)      # (a PAIRED class)
         if not keys:
             continue
         key = keys[made % len(keys)]
